@@ -111,6 +111,9 @@ pub struct Resolver<'ast, 'res> {
     // Track the statement currently being analyzed so local use facts can be attached once.
     current_stmt: Option<StmtId>,
 
+    // Locals that some `x get ...` may leave with a value of another type than declared.
+    retyped_locals: HashSet<u32>,
+
     /// Collection of semantic errors found during analysis
     pub errors: Diagnostics<'res>,
 
@@ -138,6 +141,7 @@ impl<'ast, 'res> Resolver<'ast, 'res> {
             in_loop: 0,
             scope_stack: Vec::new_in(arena),
             current_stmt: None,
+            retyped_locals: HashSet::new(),
             errors: Diagnostics::new(arena),
             facts: ProgramFacts::new(facts_arena),
             optimization_plan: None,
@@ -163,8 +167,22 @@ impl<'ast, 'res> Resolver<'ast, 'res> {
         self.current_owner = root_function;
         self.current_function = None;
         self.check_block(root);
+        self.mark_reads_of_retyped_locals();
         self.facts.finalize_pointer_bindings();
         self.emit_analysis_warnings();
+    }
+
+    /// A statement that reads a local whose run-time type can differ from the declared one
+    /// can fail there, wherever in the text the re-assignment sits (loops run it earlier).
+    fn mark_reads_of_retyped_locals(&mut self) {
+        if self.retyped_locals.is_empty() {
+            return;
+        }
+        for idx in 0..self.facts.stmt_effects.len() {
+            if self.facts.stmt_effects[idx].reads.iter().any(|l| self.retyped_locals.contains(&l.0)) {
+                self.facts.join_stmt_expr_class(StmtId(idx as u32), ExprClass::PureMayTrap);
+            }
+        }
     }
 
     fn emit_error(&mut self, span: Span, error: SemanticError, labels: Vec<Label<'res>>) {
@@ -259,7 +277,12 @@ impl<'ast, 'res> Resolver<'ast, 'res> {
             }
             // Handle variable reassignment: <variable> get <expression>
             Stmt::AssignExisting { var, var_span, expr, .. } => {
-                if let Some((_, local_id)) = self.lookup_var_info(var) {
+                if let Some((declared, local_id)) = self.lookup_var_info(var) {
+                    // The declared type stays what `make` said, but from here on the value
+                    // may be of another type: statements reading it can fail at run time.
+                    if self.infer_expr_type(expr) != Some(declared) {
+                        self.retyped_locals.insert(local_id.0);
+                    }
                     self.facts.record_stmt_local(stmt, local_id);
                     self.record_stmt_write(local_id);
                     self.record_capture_write(local_id);
@@ -1158,10 +1181,22 @@ impl<'ast, 'res> Resolver<'ast, 'res> {
 
     fn classify_expr(&self, expr: ExprRef<'ast>) -> ExprClass {
         match expr {
-            Expr::Number(..) | Expr::Bool(..) | Expr::Null(..) | Expr::Var(..) => {
-                ExprClass::PureNoTrap
+            Expr::Number(..) | Expr::Bool(..) | Expr::Null(..) => ExprClass::PureNoTrap,
+            // A variable of an enclosing function may not have been declared yet when a
+            // hoisted function that reads it is called: the read can fail at run time.
+            Expr::Var(v, ..) => {
+                if self.is_captured(v) { ExprClass::PureMayTrap } else { ExprClass::PureNoTrap }
             }
-            Expr::String { .. } => ExprClass::PureNoTrap,
+            Expr::String { parts, .. } => match parts {
+                StringParts::Interpolated(segments)
+                    if segments.iter().any(|segment| {
+                        matches!(segment, StringSegment::Variable(v) if self.is_captured(v))
+                    }) =>
+                {
+                    ExprClass::PureMayTrap
+                }
+                _ => ExprClass::PureNoTrap,
+            },
             Expr::Array { elements, .. } => {
                 elements.iter().fold(ExprClass::PureNoTrap, |class, element| {
                     class.join(self.classify_expr(element))
@@ -1223,6 +1258,11 @@ impl<'ast, 'res> Resolver<'ast, 'res> {
                 class
             }
         }
+    }
+
+    fn is_captured(&self, var: &str) -> bool {
+        self.lookup_var_info(var)
+            .is_some_and(|(_, local)| self.facts.locals[local.0 as usize].owner != self.current_owner)
     }
 
     /// True when the static type says nothing about the value the expression has at run time.
